@@ -330,10 +330,10 @@ def check_order(m, bycheck):
     return first, rest
 
 
-def stage_checks(outdir, limit, covfile, seed, only_cov=True):
+def stage_checks(outdir, limit, covfile, seed, only_cov=True, kinds=None, maxchecks=0):
     muts, res = load(outdir)
     bycheck = json.load(open(covfile)) if covfile else None
-    todo = [m for m in muts if res.get(m["id"], {}).get("tests") == "pass" and "checks" not in res[m["id"]]]
+    todo = [m for m in muts if res.get(m["id"], {}).get("tests") == "pass" and "checks" not in res[m["id"]] and (not kinds or m["kind"] in kinds)]
     random.Random(seed).shuffle(todo)
     if limit:
         todo = todo[:limit]
@@ -344,6 +344,8 @@ def stage_checks(outdir, limit, covfile, seed, only_cov=True):
         apply(wt, m)
         first, rest = check_order(m, bycheck)
         order = first + ([] if (only_cov and first) else rest)
+        if maxchecks:
+            order = order[:maxchecks]
         out = {"ran": [], "caught": None, "harness": []}
         for cid in order:
             env = dict(os.environ, G3DVERIF_REPO=wt, PYTHONDONTWRITEBYTECODE="1")
@@ -405,6 +407,7 @@ if __name__ == "__main__":
     elif cmd == "tests":
         stage_tests(outdir, int(opt("-j", "16")))
     elif cmd == "checks":
-        stage_checks(outdir, int(opt("--limit", "0")), opt("--cov"), int(opt("--seed", "0")), only_cov="--all-checks" not in a)
+        stage_checks(outdir, int(opt("--limit", "0")), opt("--cov"), int(opt("--seed", "0")), only_cov="--all-checks" not in a,
+                     kinds=set(opt("--kinds").split(",")) if opt("--kinds") else None, maxchecks=int(opt("--maxchecks", "0")))
     elif cmd == "report":
         report(outdir)
